@@ -814,3 +814,34 @@ def check_block_sums(P, R, key, rule="ACC.sum"):
                 zero = (isinstance(v, ast.Constant) and v.value in (0, 0.0)) or (isinstance(v, ast.Call) and src(v.func).split(".")[-1] in ("zeros", "zeros_like")) or (isinstance(v, ast.Subscript) and isinstance(v.value, ast.Name) and v.value.id == prm and const_value(v.slice) == 0)
                 R.check(zero, rule + "-init", key, f"{b.id} starts from `{src(v)[:30] if v is not None else None}`", "accumulation starts from zero", f"the accumulator {b.id} starts from `{src(v)[:30] if v is not None else None}`, not from zero: the reduced statistic is offset", getattr(d.stmt, "lineno", None))
     return n
+
+
+def check_accumulation_signs(P, R, key, rule="ACC.sum"):
+    """Inside the loops of a function that builds sums (statistic sums, accumulators), every in-place update of a local that was
+    allocated with zeros adds: `acc[...] += x`, never `-=` / `*=` / `/=`."""
+    f, key = _site(P, key)
+    du = get_defuse(f, P)
+    n = 0
+    zero_locals = set()
+    for st, t, v, k in stores(f):
+        if isinstance(t, ast.Name) and isinstance(v, ast.Call) and src(v.func).split(".")[-1] in ("zeros", "zeros_like"):
+            zero_locals.add(t.id)
+        if isinstance(t, ast.Name) and isinstance(v, ast.Constant) and v.value in (0, 0.0):
+            zero_locals.add(t.id)
+    for st in walk_no_nested(f.node):
+        if not isinstance(st, ast.AugAssign):
+            continue
+        b = st.target
+        while isinstance(b, ast.Subscript):
+            b = b.value
+        if isinstance(b, ast.Name) and b.id in zero_locals and any(isinstance(p_, (ast.For, ast.While)) for p_ in _parents_of(st)):
+            n += 1
+            R.check(isinstance(st.op, ast.Add), rule, key, src(st)[:60], "summed", f"`{src(st)[:50]}` updates the zero-initialised accumulator `{b.id}` with `{type(st.op).__name__}` instead of adding to it", st.lineno)
+    return n
+
+
+def _parents_of(n):
+    p = getattr(n, "_parent", None)
+    while p is not None:
+        yield p
+        p = getattr(p, "_parent", None)
